@@ -29,24 +29,15 @@ def find_diff_start(a: "Fragment", b: "Fragment", pos: int) -> int | None:
             assert isinstance(child_a, pm_node.TextNode)
             assert isinstance(child_b, pm_node.TextNode)
             if child_a.text != child_b.text:
-                if child_b.text.startswith(child_a.text):
-                    return pos + text_length(child_a.text)
-                if child_a.text.startswith(child_b.text):
-                    return pos + text_length(child_b.text)
-                next_index = next(
-                    (
-                        index_a
-                        for ((index_a, char_a), (_, char_b)) in zip(
-                            enumerate(child_a.text),
-                            enumerate(child_b.text),
-                            strict=True,
-                        )
-                        if char_a != char_b
-                    ),
-                    None,
-                )
-                if next_index is not None:
-                    return pos + next_index
+                # positions count UTF-16 code units, so compare unit by unit
+                units_a = child_a.text.encode("utf-16-le")
+                units_b = child_b.text.encode("utf-16-le")
+                same = 0
+                while (
+                    units_a[2 * same : 2 * same + 2] == units_b[2 * same : 2 * same + 2]
+                ):
+                    same += 1
+                return pos + same
         if child_a.content.size or child_b.content.size:
             inner = find_diff_start(child_a.content, child_b.content, pos + 1)
             if inner:
